@@ -183,7 +183,7 @@ Section CliLevel.
     - destruct (sink_write (fst s) _) as [s1 werr]. injection H as _ -> <-. discriminate.
   Qed.
 
-  Definition stats_log_cb (toks : list ltoken) : nat * time * time -> event NM -> nat * time * time * bool * option cerr :=
+  Definition stats_log_cb (toks : list ltoken) : nat * option time * time -> event NM -> nat * option time * time * bool * option cerr :=
     fun st ev => match ev with
                  | EErr e => (st, true, Some (EParse (perr_message e)))
                  | ENode n =>
@@ -191,7 +191,7 @@ Section CliLevel.
                      match parse_date toks (header n) with
                      | Some c =>
                          let t := time_of_civil c in
-                         ((S cnt, if is_zero_time first then t else first, t), false, None)
+                         ((S cnt, match first with Some _ => first | None => Some t end, t), false, None)
                      | None => ((S cnt, first, zero_time), false, None)
                      end
                  end.
@@ -341,7 +341,7 @@ Section CliLevel.
     all: match type of Eol with _ = Some ?o =>
            change (parse_opened NM _ o ?s) with
              (parse_opened NM (stats_log_cb (rc_date (op_rc op))) o s) in H;
-           destruct (parse_opened NM (stats_log_cb (rc_date (op_rc op))) o (O, zero_time, zero_time))
+           destruct (parse_opened NM (stats_log_cb (rc_date (op_rc op))) o (O, None, zero_time))
              as [[[cl fi] la] e1] eqn:Ep;
            (destruct e1 as [e|]; [discriminate|]);
            pose proof (parse_opened_ok _ _ _ _ _ (stats_log_cb_stops _) Ep) as Hlog
